@@ -22,7 +22,8 @@ use crate::{
 
 pub struct C23;
 
-const OPS: [Op; 7] = [
+const OPS: [Op; 8] = [
+    Op::Embeddable,
     Op::Sign,
     Op::SignSidecar,
     Op::Read,
@@ -36,8 +37,15 @@ fn scenarios() -> Vec<(Op, Fmt, Binding, bool)> {
     let mut v = Vec::new();
     for op in OPS {
         for f in assets::ALL {
+            if op == Op::Embeddable && !matches!(f, Fmt::Jpeg | Fmt::Png | Fmt::Gif | Fmt::Jxl) {
+                continue;
+            }
             for is_async in [false, true] {
                 if is_async && !op.has_async() {
+                    continue;
+                }
+                if op == Op::Embeddable {
+                    v.push((op, f, Binding::Default, false));
                     continue;
                 }
                 v.push((op, f, Binding::Default, is_async));
